@@ -1,23 +1,26 @@
 (* Props/C01.v — C01: arbitrary input never panics the demultiplexer or any accessor. *)
 From TS Require Import Base.Res Model.Timestamp Model.Packet Model.PesFilter Model.Crc Model.Psi Model.Demux
-  Proofs.TotalityProofs.
+  Model.PacketObs Model.PesObs Model.TablesObs Spec.PesSpec Spec.TablesSpec Proofs.DeepTotality Proofs.TotalityProofs.
 Open Scope N_scope.
 
 (* for EVERY list of byte chunks of any lengths (packet-aligned or not), every application policy and every
    script of handler changes, in the normal build (fz = false) and with the CRC comparison bypassed
    (fz = true, the cfg(fuzzing) build): Demultiplex::new followed by the successive push calls, with the
-   library's PAT, PMT and PES handling, returns a value — no [Panic site] is ever reached.  Every indexing,
+   library's PAT, PMT and PES handling, returns a value — no [Panic site] is ever reached — both when the
+   application call-backs only record what they are handed (deep = false) and when they call EVERY accessor of
+   every object they are handed (deep = true: the whole Packet incl. adaptation field and its extension, the
+   PesHeader with all optional fields, the PmtSection with its descriptor loops and every StreamInfo).  Every indexing,
    slicing, split_at, assert!, unwrap, usize subtraction and range-checked constructor of the modelled code
    is a checked operation of the model, so this covers them all. *)
-Theorem C01_push_total : forall policy scripts fz bufs, Forall bytes_ok bufs ->
-  exists fs cx ev, run_demux policy scripts fz false bufs = Ok (fs, cx, ev).
+Theorem C01_push_total : forall policy scripts fz deep bufs, Forall bytes_ok bufs ->
+  exists fs cx ev, run_demux policy scripts fz deep bufs = Ok (fs, cx, ev).
 Proof. exact c01_run_demux_total. Qed.
 Print Assumptions C01_push_total.
 
 (* the invariant that carries it: the handler table is well formed and every table chain satisfies
    "Buffering => at least 8 buffered bytes whose header has the syntax bit set"; one packet preserves it *)
-Theorem C01_packet_step : forall policy scripts fz fs cx i pk, filters_inv fs -> ctx_inv cx -> pkt_ok pk ->
-  exists fs' cx' ev, Spec.Dispatch.spec_packet policy scripts fz false fs cx (i, pk) = Ok (fs', cx', ev) /\ filters_inv fs' /\ ctx_inv cx'.
+Theorem C01_packet_step : forall policy scripts fz deep fs cx i pk, filters_inv fs -> ctx_inv cx -> pkt_ok pk ->
+  exists fs' cx' ev, Spec.Dispatch.spec_packet policy scripts fz deep fs cx (i, pk) = Ok (fs', cx', ev) /\ filters_inv fs' /\ ctx_inv cx'.
 Proof. exact spec_packet_total. Qed.
 Print Assumptions C01_packet_step.
 
@@ -30,6 +33,23 @@ Theorem C01_chain_total : forall fz (IS CX EV : Type) inner (IOK : IS -> Prop) (
 Proof. exact spc_consume_total. Qed.
 Print Assumptions C01_chain_total.
 
-(* the accessors handed to application call-backs are total by the exactness theorems of C12 (packet),
-   C13 (adaptation field), C14 (PES header), C15 (timestamps), C16 (PAT/PMT), C17 (descriptors): each states
-   `accessor x = Ok (specification value)` for every input. *)
+(* the accessors of the objects handed to application call-backs, each for EVERY input of its domain *)
+Theorem C01_packet_accessors : forall pk, pkt_ok pk -> exists o, obs_packet pk = Ok o.
+Proof. exact obs_packet_total. Qed.
+Print Assumptions C01_packet_accessors.
+
+Theorem C01_adaptation_accessors : forall base b, (1 <= length b)%nat -> bytes_ok b -> exists o, obs_af base b = Ok o.
+Proof. exact obs_af_total. Qed.
+Print Assumptions C01_adaptation_accessors.
+
+Theorem C01_pes_header_accessors : forall pol g base c, bytes_ok c -> s_ppc_accept c = true -> exists o, obs_ppc_at pol g base c = Ok o.
+Proof. exact obs_ppc_total. Qed.
+Print Assumptions C01_pes_header_accessors.
+
+Theorem C01_descriptor_accessors : forall base b, bytes_ok b -> exists o, obs_desc_loop base b = Ok o.
+Proof. exact obs_desc_loop_total. Qed.
+Print Assumptions C01_descriptor_accessors.
+
+Theorem C01_pmt_accessors : forall b, bytes_ok b -> s_pmt_accept b = ROk b -> exists o, obs_pmt_section b = Ok o.
+Proof. exact obs_pmt_section_total. Qed.
+Print Assumptions C01_pmt_accessors.
